@@ -8,6 +8,7 @@ fn once(case: &Value, run: &Run) -> Acc {
     match case["kind"].as_str().unwrap_or("") {
         "edge" => crate::checks::nodelist::replay_edge(case, run),
         "query" => crate::checks::common::replay_query(case, run),
+        "parse" | "parse-eval" => crate::checks::lang::replay(case, run),
         "ext" => crate::checks::ext::replay(case, run),
         "query-plain" => crate::checks::common::replay_plain(case, run),
         k => {
